@@ -89,6 +89,12 @@ func layout(dir string, c Case, set *par2ref.Set, canonical bool) {
 				ps[i], ps[j] = ps[j], ps[i]
 			}
 		}
+		if c.Unknown && !canonical && c.Scramble != 0 && c.Scramble%3 == 0 {
+			// a conformant packet of unknown type with an empty body (length 64) as the very last packet of the file
+			var ty [16]byte
+			copy(ty[:], "PAR 2.0\x00VerifEmp")
+			ps = append(ps, par2ref.Packet{SetID: set.SetID(), Type: ty, Body: nil})
+		}
 		if !isIndex && !canonical && c.Scramble != 0 {
 			return par2ref.EncodeAll(ps)
 		}
@@ -350,6 +356,7 @@ func gen(t *rapid.T) Case {
 	c := Case{Slice: S}
 	c.Files = scen.GenFiles(t, S, 4, 6000, 40)
 	c.Base = rapid.SampledFrom(bases).Draw(t, "base")
+	volTwin := rapid.IntRange(0, 5).Draw(t, "voltwin") == 0
 	nv := rapid.IntRange(1, 5).Draw(t, "nvols")
 	sfx := rapid.Permutation(suffixes).Draw(t, "sfx")
 	total := scen.TotalSlices(c.Files, S)
@@ -393,6 +400,18 @@ func gen(t *rapid.T) Case {
 			}
 		}
 		c.Vols = keep
+	}
+	isASCII := func(x string) bool {
+		for _, r := range x {
+			if r > 126 || r < 32 {
+				return false
+			}
+		}
+		return true
+	}
+	if volTwin && len(c.Vols) > 0 && !strings.ContainsAny(c.Base+c.Vols[0].Suffix, "\\") && isASCII(c.Base+c.Vols[0].Suffix) {
+		// a protected data file in a sub-directory that carries the same base name as a recovery file beside the index
+		c.Files[len(c.Files)-1].Name = "old copies/" + c.Base + "." + c.Vols[0].Suffix + ".par2"
 	}
 	c.Scramble = rapid.Uint64Range(0, 1<<30).Draw(t, "scramble")
 	c.Foreign = rapid.Bool().Draw(t, "foreign")
